@@ -194,7 +194,7 @@ func runSolver(name, file string, timeout int) SolverResult {
 }
 
 // Discharge runs the portfolio on all obligations, in parallel.
-func Discharge(obls []*Obligation, dir string, timeout int, thorough bool, jobs int) []*OblResult {
+func Discharge(obls []*Obligation, dir string, timeout int, thorough bool, jobs int, knownFail func(*Obligation) bool) []*OblResult {
 	os.MkdirAll(dir, 0o755)
 	results := make([]*OblResult, len(obls))
 	var wg sync.WaitGroup
@@ -229,7 +229,14 @@ func Discharge(obls []*Obligation, dir string, timeout int, thorough bool, jobs 
 				}
 				return false
 			}
-			if thorough {
+			if knownFail != nil && knownFail(o) && !thorough {
+				// recorded finding: one short attempt (it is expected not to discharge)
+				sr := runSolver("z3-new", f, 3)
+				r.Attempts = append(r.Attempts, sr)
+				if sr.Result == "unsat" {
+					r.By, r.Status = "z3-new", "discharged"
+				}
+			} else if thorough {
 				// all solvers are consulted; every definite answer must agree
 				for _, s := range []string{"z3-new", "z3", "cvc5"} {
 					try(s)
